@@ -32,6 +32,8 @@ TABLE = {
             {"driver": "reuse", "required_clauses": ["callback-legitimacy", "stale-token", "dispatch-owed", "timer-fire"]},
             {"driver": "batch", "required_clauses": ["callback-legitimacy", "dispatch-owed"]},
             {"driver": "disable", "required_clauses": ["callback-legitimacy"]},
+            {"driver": "composite", "required_clauses": ["scripted-callback", "post-action"]},
+            {"driver": "lifecycle", "required_clauses": ["scripted-callback"]},
         ],
     },
     "C02": {
